@@ -2129,6 +2129,18 @@ def find_cache_meta(
     return m, me
 
 
+def cache_data_matches_meta(meta: CacheMeta, manager: BuildManager) -> bool:
+    """Is the data cache file (still) the one that this meta was written for?"""
+    if manager.options.skip_cache_mtime_checks:
+        return True
+    # Check data_file; assume if its mtime matches it's good.
+    try:
+        data_mtime = manager.getmtime(meta.data_file)
+    except OSError:
+        return False
+    return data_mtime == meta.data_mtime
+
+
 def validate_meta(
     meta: CacheMeta | None, id: str, path: str | None, ignore_all: bool, manager: BuildManager
 ) -> CacheMeta | None:
@@ -2156,16 +2168,9 @@ def validate_meta(
         t0 = time.time()
     bazel = manager.options.bazel
     assert path is not None, "Internal error: meta was provided without a path"
-    if not manager.options.skip_cache_mtime_checks:
-        # Check data_file; assume if its mtime matches it's good.
-        try:
-            data_mtime = manager.getmtime(meta.data_file)
-        except OSError:
-            manager.log(f"Metadata abandoned for {id}: failed to stat data_file")
-            return None
-        if data_mtime != meta.data_mtime:
-            manager.log(f"Metadata abandoned for {id}: data cache is modified")
-            return None
+    if not cache_data_matches_meta(meta, manager):
+        manager.log(f"Metadata abandoned for {id}: data cache is modified or missing")
+        return None
 
     if bazel:
         # Normalize path under bazel to make sure it isn't absolute
@@ -2773,7 +2778,14 @@ class State:
 
         if manager.stats_enabled:
             t0 = time.time()
+        found_meta = meta
         meta = validate_meta(meta, id, path, ignore_all, manager)
+        if meta is None and found_meta is not None:
+            if not cache_data_matches_meta(found_meta, manager):
+                # The data file is not the one that the interface hash describes (for example,
+                # a previous run was killed between writing the data and the meta file), so
+                # it must be written again even if the interface turns out to be the same.
+                interface_hash = b""
         if manager.stats_enabled:
             manager.add_stats(validate_meta_time=time.time() - t0)
 
